@@ -1,8 +1,10 @@
 #!/bin/sh
-# tools/run_all.sh [tier] [seed] : every check once, summary of exit codes and wall time
+# tools/run_all.sh [tier] [seed] [nn …] : every check (or the listed ones: 04 12 …) once, summary of exit codes and wall time
 tier="${1:-quick}"; seed="${2:-0}"
+[ $# -ge 2 ] && shift 2 || shift $#
+list="${*:-01 02 03 04 05 06 07 08 09 10 11 12 13 14 15 16 17 18 19 20}"
 cd "$(dirname "$0")/.." || exit 2
-for i in 01 02 03 04 05 06 07 08 09 10 11 12 13 14 15 16 17 18 19 20; do
+for i in $list; do
   s=$(date +%s.%N)
   out=$(VERIF_SEED=$seed ./check C$i --tier $tier 2>&1); rc=$?
   e=$(date +%s.%N)
